@@ -250,7 +250,9 @@ func (j *jsonReader) getMap() map[string]any {
 	if j.current != nil {
 		return j.current
 	}
-	j.current = j.value[0].(map[string]any)
+	// A value that is not a JSON object yields a nil map: it has no tag, so
+	// every typed read rejects it.
+	j.current, _ = j.value[0].(map[string]any)
 	return j.current
 }
 
